@@ -305,7 +305,13 @@ def _simple(v, depth=0):
 class Exec:
     """One execution of run_realign under a given choice prefix."""
 
-    def __init__(self, cfg, prefix=(), fault=None, want_state=True):
+    def __init__(self, cfg, prefix=(), fault=None, want_state=True, starve=None):
+        # starve = (i, K): from the i-th recorded choice point on, "the parent acts first" is taken whenever it is on offer,
+        # up to K times (a worker that is slow for a long time); afterwards the default schedule. On code whose state does
+        # not change over a timed-out read the stutter rule withdraws the offer at once, so this costs nothing there.
+        self.starve = starve
+        self.starved = 0
+        self.horizon = HORIZON + (4 * starve[1] if starve else 0)
         self.cfg = cfg
         self.prefix = list(prefix)
         self.fault = fault  # None or dict(w=, k=, code=)  / list of such
@@ -435,7 +441,7 @@ class Exec:
     def point(self, label, can_proceed=True, same_as_before=False):
         """scheduling point before a parent operation: let worker events happen until 'proceed' is chosen."""
         self.nops += 1
-        if self.nops > HORIZON:
+        if self.nops > self.horizon:
             raise Hang("horizon")
         while True:
             st = self.parent_state()
@@ -457,6 +463,9 @@ class Exec:
                     c = self.prefix[i]
                     if c >= len(opts):
                         raise ReplayDivergence(f"choice {c} out of range at point {i} ({label})")
+                elif self.starve and i >= self.starve[0] and self.starved < self.starve[1] and opts[-1][0] == "p":
+                    c = len(opts) - 1
+                    self.starved += 1
                 else:
                     c = 0
                 self.choices.append(c)
@@ -602,7 +611,7 @@ class Exec:
             # blocks until that worker is gone: its remaining events are forced (other workers may interleave)
             while p.started and not p.done:
                 self.nops += 1
-                if self.nops > HORIZON:
+                if self.nops > self.horizon:
                     raise Hang("horizon")
                 en = self.enabled()
                 if p not in en:
@@ -691,7 +700,10 @@ class Explorer:
     """Stateless depth-first exploration of all schedules with at most `bound` deviations from the default
     (eager-worker) schedule; bound=None explores the complete tree."""
 
-    def __init__(self, cfg, fault=None, bound=None, on_exec=None, max_execs=None, prune=False):
+    def __init__(self, cfg, fault=None, bound=None, on_exec=None, max_execs=None, prune=False, max_ops=None, should_stop=None):
+        self.should_stop = should_stop  # e.g. "enough violating executions seen for this configuration"
+        self.max_ops = max_ops  # total parent operations over all executions (long executions count for more)
+        self.ops = 0
         self.prune = prune
         self.expanded = {}
         self.pruned_points = 0
@@ -713,6 +725,7 @@ class Explorer:
     def run_one(self, prefix):
         x = Exec(self.cfg, prefix, self.fault).run()
         self.execs += 1
+        self.ops += x.nops
         self.states.update(x.states)
         self.transitions += x.transitions
         if x.timeouts:
@@ -726,7 +739,7 @@ class Explorer:
     def explore(self):
         stack = [[]]
         while stack:
-            if self.max_execs is not None and self.execs >= self.max_execs:
+            if (self.max_execs is not None and self.execs >= self.max_execs) or (self.max_ops is not None and self.ops >= self.max_ops) or (self.should_stop is not None and self.should_stop()):
                 self.capped = True
                 break
             prefix = stack.pop()
